@@ -27,7 +27,7 @@ def numTail (n : NumSt) : Bytes :=
 /-! ## ten nines overflow the exponent accumulator -/
 
 theorem go9 (e : Nat) (r : Bytes) :
-    expOverflows.go e (0x39 :: r) = if overflowMacro e 9 i32Max then true else expOverflows.go (e * 10 + 9) r := rfl
+    expOverflows.go e (0x39 :: r) = if Model.Num.overflowMacro e 9 Model.Num.i32Max then true else expOverflows.go (e * 10 + 9) r := rfl
 
 theorem go_up (B B' : Nat) (r : Bytes) (hB : B' ≤ B * 10 + 9)
     (h : ∀ e, B' ≤ e → expOverflows.go e r = true) :
@@ -41,8 +41,8 @@ theorem go_up (B B' : Nat) (r : Bytes) (hB : B' ≤ B * 10 + 9)
 theorem go_last (r : Bytes) : ∀ e, 214748365 ≤ e → expOverflows.go e (0x39 :: r) = true := by
   intro e he
   rw [go9]
-  have : overflowMacro e 9 i32Max = true := by
-    simp [overflowMacro, i32Max]; omega
+  have : Model.Num.overflowMacro e 9 Model.Num.i32Max = true := by
+    simp [Model.Num.overflowMacro, Model.Num.i32Max]; omega
   simp [this]
 
 theorem go_nines (e : Nat) : expOverflows.go e nines = true := by
